@@ -213,15 +213,17 @@ def clause_index(prog, rep, sch):
         # save_group itself and the same-crate helpers it hands the record to (`inner.put_group(group)`)
         fam = [f] + [t for c in f.live_calls() for t in prog.call_targets(c) if t.crate == f.crate and not t.is_closure() and not t.is_test_like() and t.path != f.path]
         stale_ok = False
+        fam_paths = set(q.path for q in fam)
         for g in fam:
             for c in g.live_calls():
                 if not (c.name == "pop" and "p" in c.args[0]):
                     continue
                 for w in A.control_dependent_switches(g, c.bb):
                     l = A._opl(g.term(w)["discr"])
-                    dep, calls, _ = g.depends_on(l)
+                    # (the comparison may sit in a closure of the lookup chain: `.peek(id).map(..).filter(|old| *old != new)`)
+                    calls = A.origins(prog, g, l, scope=fam_paths, max_frames=1).calls
                     if any(x.name in ("ne", "eq") for x in calls):
-                        og = A.origins(prog, g, c.args[-1]["p"][0], scope=None, max_frames=0)
+                        og = A.origins(prog, g, c.args[-1]["p"][0], scope=fam_paths, max_frames=1)
                         if "nostr_group_id" in og.fields:
                             stale_ok = True
         rep.check(stale_ok, "routing-index", "memory/stale-entry-removed",
@@ -235,7 +237,7 @@ def clause_index(prog, rep, sch):
         for bb, s in errs:
             for w in A.control_dependent_switches(f, bb):
                 l = A._opl(f.term(w)["discr"])
-                dep, calls, _ = f.depends_on(l)
+                calls = A.origins(prog, f, l, scope=fam_paths, max_frames=1).calls
                 if any(x.name == "peek" for x in calls) and any(x.name in ("ne", "eq") for x in calls):
                     coll = True
         rep.check(coll, "routing-index", "memory/collision-refused", "a nostr_group_id already mapped to a different group is refused (as the SQLite unique index does)",
